@@ -55,6 +55,7 @@ type coCase struct {
 	Distinct int    `json:"distinct_round_trips_per_goroutine"`
 	Seed     uint64 `json:"seed"`
 	MaxMs    int    `json:"max_ms"`
+	After    bool   `json:"alone_after_concurrent,omitempty"`
 }
 
 type coDiff struct {
@@ -81,6 +82,7 @@ type coResult struct {
 	ElapsedMs  int      `json:"elapsed_ms"`
 	Runs       int      `json:"runs"`
 	Note       string   `json:"note"`
+	Skipped    bool     `json:"skipped_time_budget"`
 }
 
 // costly families: a private-key operation per round trip (milliseconds); the others take
@@ -104,7 +106,9 @@ func genCryptoOverlap(algs map[string][]string, supported map[string]map[string]
 		if thorough {
 			iters *= 3
 		}
-		cases = append(cases, coCase{"crypto-overlap", family, alg, mode, g, procs, iters, distinct, rng.U64() % 1000000, 3000})
+		// every other roundtrip/burst case runs the round trips alone AFTER the concurrent phase
+		after := mode != "split" && len(cases)%2 == 1
+		cases = append(cases, coCase{"crypto-overlap", family, alg, mode, g, procs, iters, distinct, rng.U64() % 1000000, 3000, after})
 	}
 	gs := func(lo, hi int) int { return rng.Range(lo, hi) }
 	full := func(family, alg string, itCostly, itCheap, dCheap int) {
@@ -120,7 +124,7 @@ func genCryptoOverlap(algs map[string][]string, supported map[string]map[string]
 						if coCostly(family, alg) && g >= 8 {
 							k = it / 2
 						}
-						cases = append(cases, coCase{"crypto-overlap", family, alg, mode, g, procs, k, d, rng.U64() % 1000000, 4000})
+						cases = append(cases, coCase{"crypto-overlap", family, alg, mode, g, procs, k, d, rng.U64() % 1000000, 4000, mode != "split" && len(cases)%2 == 1})
 					}
 				}
 			}
@@ -269,16 +273,26 @@ func coDescribe(c coCase, procs int) string {
 	if alg == "*" {
 		alg = "all algorithms of the family spread over the goroutines"
 	}
-	return fmt.Sprintf("%s, %s: %d goroutines, each with its own key and messages, %d round trips each (mode %s), GOMAXPROCS=%d", what, alg, c.G, c.Iters, c.Mode, procs)
+	order := "run alone first"
+	if c.After && c.Mode != "split" {
+		order = "run alone afterwards"
+	}
+	return fmt.Sprintf("%s, %s: %d goroutines, each with its own key and messages, %d round trips each (mode %s, %s), GOMAXPROCS=%d", what, alg, c.G, c.Iters, c.Mode, order, procs)
 }
 
 func judgeCryptoOverlap(res *lib.Result, r coResult, tag string) {
 	c := r.Case
+	if r.Skipped {
+		// the machine was too slow for the whole list within the budget of the tier: not a result
+		res.Hit(tag + ":skipped-time-budget")
+		return
+	}
 	key, _ := json.Marshal(c)
 	res.Count(tag+":"+string(key), c.G >= 2 && r.Overlapped > 0 && r.Note == "")
 	res.Evaluations += r.Ops
 	res.Hit(tag + ":family=" + c.Family)
 	res.Hit(tag + ":mode=" + c.Mode)
+	res.Hit(fmt.Sprintf("%s:alone-after-concurrent=%v", tag, c.After && c.Mode != "split"))
 	res.Hit(fmt.Sprintf("%s:goroutines=%d", tag, c.G))
 	res.Hit(fmt.Sprintf("%s:gomaxprocs=%s", tag, map[bool]string{true: "default", false: strconv.Itoa(c.Procs)}[c.Procs == 0]))
 	for _, a := range r.Algs {
@@ -329,11 +343,14 @@ func runCryptoOverlap(f lib.Flags, res *lib.Result, bin string, cases []coCase, 
 	}
 	from, reports := 0, 0
 	for restarts := 0; from < len(cases) && restarts <= 3; restarts++ {
-		limit := 4 * time.Minute // the whole list takes seconds
+		// the child stops starting new cases after `budget` (reported as skipped, not as a failure); a
+		// case itself is bounded by max_ms per phase, so the child is killed — a hang INSIDE a crypto
+		// call, which the property forbids — only minutes after that
+		budget := 90 * time.Second // the quick list takes ~15 s on this machine
 		if f.Tier == "thorough" || f.Search || race {
-			limit = 15 * time.Minute
+			budget = 12 * time.Minute
 		}
-		so, se, err := runChild(bin, env, limit, "--cases", cf, "--from", strconv.Itoa(from), "--repeat", strconv.Itoa(repeat))
+		so, se, err := runChild(bin, env, budget+4*time.Minute, "--cases", cf, "--from", strconv.Itoa(from), "--repeat", strconv.Itoa(repeat), "--total-ms", strconv.Itoa(int(budget.Milliseconds())))
 		last := from - 1
 		sc := bufio.NewScanner(strings.NewReader(so))
 		sc.Buffer(make([]byte, 1<<20), 1<<26)
@@ -362,12 +379,24 @@ func runCryptoOverlap(f lib.Flags, res *lib.Result, bin string, cases []coCase, 
 			c = cases[idx]
 			desc = coDescribe(cases[idx], cases[idx].Procs)
 		}
-		res.Violate(findCryptoOverlap, fmt.Sprintf("the process running overlapping crypto calls died / hangs (%v) in case %d (%s): %s", err, idx, desc, tail(stripCaseLines(se), 900)), c)
+		res.Violate(findCryptoOverlap, fmt.Sprintf("the process running overlapping crypto calls died / hangs (%v) in case %d (%s): %s", err, idx, desc, coCrashText(stripCaseLines(se))), c)
 		from = idx + 1
 	}
 	if race {
 		res.Distribution[tag+":reports"] += reports
 	}
+}
+
+// coCrashText: the line that names the crash (fatal error / panic) and the end of the trace.
+func coCrashText(se string) string {
+	head := ""
+	for _, l := range strings.Split(se, "\n") {
+		if strings.HasPrefix(l, "fatal error:") || strings.HasPrefix(l, "panic:") || strings.HasPrefix(l, "runtime: ") {
+			head = l + " … "
+			break
+		}
+	}
+	return head + tail(se, 700)
 }
 
 func checkCryptoOverlap(f lib.Flags, res *lib.Result, rng *lib.Rand) {
@@ -387,7 +416,7 @@ func checkCryptoOverlap(f lib.Flags, res *lib.Result, rng *lib.Rand) {
 	if len(cases) > 0 {
 		res.Sample(cases[0])
 	}
-	res.Note(fmt.Sprintf("crypto-overlap family: %d cases in %.1fs", len(cases), time.Since(t0).Seconds()))
+	res.Note(fmt.Sprintf("crypto-overlap family: %d cases in %.1fs (%d skipped: time budget)", len(cases), time.Since(t0).Seconds(), res.Distribution["crypto-overlap:skipped-time-budget"]))
 	if f.Tier == "thorough" {
 		// the quick list (shortened) under the race detector; supporting search: absence decides nothing
 		rbin, err := buildChild(f, "cryptoov", true)
